@@ -54,6 +54,19 @@ def observe(tree, full=True):
     return snap, repr(trees), js, py
 
 
+def result_probes():
+    from statham.schema.elements import AnyOf, Array, Element, Integer, String
+    from statham.schema.property import Property
+
+    named = lambda: Element(properties={"a": Property(Element()), "b_": Property(Element(), source="b"), "k": Property(Element())})
+    return [
+        ("Element(properties a,b,k)", named()),
+        ("Element(properties a:int, required zz)", Element(properties={"a": Property(Integer()), "x": Property(String())}, required=["zz"])),
+        ("Element(people: Array(Element(properties)))", Element(properties={"people": Property(Array(named())), "a": Property(named())}, additionalProperties=False)),
+        ("Array(AnyOf(Element(properties a:str), Element(properties)))", Array(AnyOf(Element(properties={"a": Property(String())}), named()))),
+    ]
+
+
 def explore_tree(st, label, factory, values, pairs):
     tree = factory()
     target = tree[0] if isinstance(tree, tuple) else tree
@@ -85,6 +98,29 @@ def explore_tree(st, label, factory, values, pairs):
             # one violation per tree is enough; continuing on a tree that changes under every call can blow up
             # (e.g. an element that nests itself one level deeper per validation)
             return
+    # results of earlier validations are values too (chained validation): feed them back, alone and nested
+    fed = 0
+    for n, v in enumerate(values):
+        if base[n][0] != impl.ACCEPT or not isinstance(v, (dict, list)) or fed >= (3 if _TIER[0] == 'quick' else 8):
+            continue
+        fed += 1
+        for pname, probe in [("same-element", target)] + result_probes():
+            for wname, wrap in (("bare", lambda r: r), ("in-member", lambda r: {"people": [r], "a": r})):
+                _, r = impl.do_call(target, copy.deepcopy(v), copy_value=False)
+                before = impl.canon_result(r)
+                arg = wrap(r)
+                k1, r1 = impl.do_call(probe, arg, copy_value=False)
+                st.add("evaluations")
+                st.add("transitions")
+                after = impl.canon_result(r)
+                if after != before:
+                    st.violation("input-mutated:result-as-input", "%s: the result of validating %r, passed on (%s) to %s, was changed from %s to %s" % (label, v, wname, pname, str(before)[:200], str(after)[:200]), {"tree": label, "value": v, "probe": pname, "wrap": wname})
+                    continue
+                k2, r2 = impl.do_call(probe, arg, copy_value=False)
+                c1 = impl.canon_result(r1) if k1 == impl.ACCEPT else type(r1).__name__
+                c2 = impl.canon_result(r2) if k2 == impl.ACCEPT else type(r2).__name__
+                if (k1, c1) != (k2, c2):
+                    st.violation("not-repeatable:result-as-input", "%s: the result of validating %r passed on (%s) to %s gives %s, then %s" % (label, v, wname, pname, k1, k2), {"tree": label, "value": v, "probe": pname, "wrap": wname})
     # repetition round: history = all values, then each again
     for n, v in enumerate(values):
         kind, canon = step(target, n, v, ["<all values>", v])
